@@ -80,6 +80,12 @@ package rhp
 //@ func (*Server).handleRPCFreeSectors props C08,C09
 //@   nopanic
 //@   requires s != nil && s.contractor != nil && s.chain != nil && stream != nil
+//@   ghostvar unsent int
+//@   ghostvar leaked int
+//@   aftercall SignHash : unsent = 1
+//@   aftercall ReviseV2Contract : unsent = 0
+//@   aftercall WriteResponse : leaked = ite(unsent == 1, 1, leaked)
+//@   ensures [commit-before-reply] leaked == 0
 //@   loop "range req.Indices"
 //@     invariant -1 <= rangeindex && rangeindex < len(req.Indices)
 //@     invariant forall j int :: { req.Indices[j] } 0 <= j && j <= rangeindex ==> req.Indices[j] < len(state.Roots)
@@ -90,7 +96,16 @@ package rhp
 //@ func (*Server).handleRPCSectorRoots props C08,C09
 //@   nopanic
 //@   requires s != nil && s.contractor != nil && s.chain != nil && stream != nil
+//@   ghostvar unsent int
+//@   ghostvar leaked int
+//@   aftercall SignHash : unsent = 1
+//@   aftercall ReviseV2Contract : unsent = 0
+//@   aftercall WriteResponse : leaked = ite(unsent == 1, 1, leaked)
+//@   ensures [commit-before-reply] leaked == 0
 //
+// In every revising handler the host's signature on the new revision leaves the host only after
+// the contractor committed that revision (unsent: signed and not yet committed; a response written
+// in that window would hand the renter a doubly signed revision the host may never record).
 // ---------------------------------------------------------------------------
 // C08 / C15: credits are backed by a doubly signed revision of the locked contract
 //
@@ -133,22 +148,46 @@ package rhp
 //@ func (*Server).handleRPCFundAccounts props C08,C15
 //@   nopanic
 //@   requires s != nil && s.contractor != nil && s.chain != nil && stream != nil
+//@   ghostvar unsent int
+//@   ghostvar leaked int
+//@   aftercall SignHash : unsent = 1
+//@   aftercall CreditAccountsWithContract : unsent = 0
+//@   aftercall WriteResponse : leaked = ite(unsent == 1, 1, leaked)
+//@   ensures [commit-before-reply] leaked == 0
 //@   loop "range req.Deposits"
 //@     invariant -1 <= rangeindex && rangeindex < len(req.Deposits)
 //@ func (*Server).handleRPCReplenishAccounts props C08,C15
 //@   nopanic
 //@   requires s != nil && s.contractor != nil && s.chain != nil && stream != nil
+//@   ghostvar unsent int
+//@   ghostvar leaked int
+//@   aftercall SignHash : unsent = 1
+//@   aftercall CreditAccountsWithContract : unsent = 0
+//@   aftercall WriteResponse : leaked = ite(unsent == 1, 1, leaked)
+//@   ensures [commit-before-reply] leaked == 0
 //@   loop "range balances"
 //@     invariant -1 <= rangeindex && rangeindex < len(balances) && len(balances) == len(req.Accounts)
 //@ func (*Server).handleRPCReplenishPools props C08,C15
 //@   nopanic
 //@   requires s != nil && s.contractor != nil && s.chain != nil && stream != nil
+//@   ghostvar unsent int
+//@   ghostvar leaked int
+//@   aftercall SignHash : unsent = 1
+//@   aftercall CreditPoolsWithContract : unsent = 0
+//@   aftercall WriteResponse : leaked = ite(unsent == 1, 1, leaked)
+//@   ensures [commit-before-reply] leaked == 0
 //@   loop "range balances"
 //@     invariant -1 <= rangeindex && rangeindex < len(balances) && len(balances) == len(req.Accounts)
 //
 //@ func (*Server).handleRPCAppendSectors props C08,C09
 //@   nopanic
 //@   requires s != nil && s.contractor != nil && s.chain != nil && s.sectors != nil && stream != nil
+//@   ghostvar unsent int
+//@   ghostvar leaked int
+//@   aftercall SignHash : unsent = 1
+//@   aftercall ReviseV2Contract : unsent = 0
+//@   aftercall WriteResponse : leaked = ite(unsent == 1, 1, leaked)
+//@   ensures [commit-before-reply] leaked == 0
 //@   loop "range req.Sectors"
 //@     invariant -1 <= rangeindex && rangeindex < len(req.Sectors) && len(accepted) == len(req.Sectors)
 //@     invariant len(roots) == len(state.Roots) + appended && len(state.Roots) * rhp4.SectorSize == state.Revision.Filesize && state.Roots == callres("LockV2Contract", 0).Roots
